@@ -854,6 +854,27 @@ def c14_case(ctx: Ctx, case: dict):
             with np.errstate(all="ignore"):
                 same = (batch == want) | (np.isnan(batch) & np.isnan(want)) | (np.abs(batch - want) <= 1e-9 * scale)
             if not same.all():
+                # an ill-conditioned column (cos of 2.5e8: a last-bit difference of `**` between the array and the scalar
+                # loop is amplified a billion times) is not a column that depends on its neighbours: measure how far the
+                # single-column result moves when its inputs are nudged by a few ulps, and allow a multiple of that
+                for (i, j) in map(tuple, np.argwhere(~same)):
+                    spread = 0.0
+                    for sgn in (1.0, -1.0):
+                        for flip in (1.0, -1.0):
+                            pat = np.where(np.arange(S.shape[0]) % 2 == 0, sgn, sgn * flip)
+                            patp = np.where(np.arange(len(pcol(j))) % 2 == 0, sgn * flip, sgn)
+                            sj = S[:, j] * (1 + 4 * 2.2e-16 * pat)
+                            pj = pcol(j) * (1 + 4 * 2.2e-16 * patp)
+                            try:
+                                with np.errstate(all="ignore"):
+                                    near = np.asarray(oracle.call_py(getattr(b.mod, fn), order, states=sj, t=t, dt=dt, parameters=pj), dtype=float)
+                                spread = max(spread, abs(float(near[i]) - float(want[i, j])))
+                            except Exception:
+                                pass
+                    if np.isfinite(spread) and abs(float(batch[i, j]) - float(want[i, j])) <= 64 * spread:
+                        same[i, j] = True
+                        ctx.count("ill_conditioned_column_entries")
+            if not same.all():
                 i, j = map(int, np.argwhere(~same)[0])
                 ctx.violate(f"C14/numpy/{fn}/column-differs", f"{fn}: column {j} of the batch result differs from the call on column {j} alone in row {i}: {batch[i, j]!r} vs {want[i, j]!r} ({pmode})",
                             case={**case, "stiff": stiff, "points": pts})
